@@ -343,6 +343,7 @@ def r7(ctx):
 
 def r_plumb(ctx):
     namesake_plumbing(ctx, ctx.prog, r"^(<)?dnp3::outstation::", 60, "plumbing")
+    arg_namesakes(ctx, ctx.prog)
 
 
 def r9(ctx):
